@@ -960,6 +960,16 @@ where
                 // opened tag `self.map.start`
                 DeEvent::Eof => Err(Error::missed_end(self.map.start.name(), decoder).into()),
 
+                // Text is an item only of a `$value` sequence. In a sequence of
+                // elements with a fixed name it belongs to another field (`$text`)
+                #[cfg(feature = "overlapped-lists")]
+                DeEvent::Text(_) if matches!(self.filter, TagFilter::Include(_)) => {
+                    self.map.de.skip()?;
+                    continue;
+                }
+                #[cfg(not(feature = "overlapped-lists"))]
+                DeEvent::Text(_) if matches!(self.filter, TagFilter::Include(_)) => Ok(None),
+
                 DeEvent::Text(_) => match self.map.de.next()? {
                     DeEvent::Text(e) => seed.deserialize(TextDeserializer(e)).map(Some),
                     // SAFETY: we just checked that the next event is Text
